@@ -281,8 +281,8 @@ var _ = refjson.MaxDepth
 
 func resetFamily(r *evid.Run) {
 	long := `{"k":"` + strings.Repeat("v", 300) + `","arr":[` + strings.Repeat("123456,", 60) + `0]}`
-	as := []string{`{"a":{"b":[1,2,{"c":"d"}]},"e":null} 7 [`, long + " " + long, `[1,2,x]`, `{"dup":1,"dup":2}`, `"` + strings.Repeat("s", 5000) + `"`, ``}
-	bs := []string{`{"x":[true,{"y":"z"}],"w":"` + strings.Repeat("q", 90) + `"} 12`, `[1,}`, `{"p":{"p":{"p":[]}}}`, long}
+	as := []string{`{"x":{"y":{"z":1,"w":2},"v":[{"z":3,"y":4}]},"u":{"x":5}}`, `{"a":{"b":[1,2,{"c":"d"}]},"e":null} 7 [`, long + " " + long, `[1,2,x]`, `{"dup":1,"dup":2}`, `"` + strings.Repeat("s", 5000) + `"`, ``}
+	bs := []string{`{"x":{"y":{"z":5,"w":6},"v":[{"y":7,"z":8}],"u":9},"u":{"x":0,"y":{"z":1}}}`, `{"x":[true,{"y":"z"}],"w":"` + strings.Repeat("q", 90) + `"} 12`, `[1,}`, `{"p":{"p":{"p":[]}}}`, long}
 	shapes := []Sched{{}, {Chunk: 1}, {Chunk: 7}, {Chunk: 64}}
 	type unit struct{ a, b int }
 	var units []unit
@@ -347,4 +347,89 @@ func resetOne(x *runner, cs Case) string {
 		return fmt.Sprintf("after %d calls on %.60q (reader %+v, bytes.Buffer=%v) and Reset: %s", cs.ResetAfter, cs.First, cs.FirstSched, cs.FirstBuffer, msg)
 	}
 	return ""
+}
+
+// ---- names repeated across nesting levels and siblings ----
+//
+// Duplicate detection keeps one name set per open object. Every small tree of objects and arrays whose member
+// names are drawn from {a, b} (so that a name of a nested object reappears in its parent, in a sibling, in an
+// array element) is walked token-wise, value-wise and mixed, with the Allow* options absent, spelled out as false
+// and with AllowDuplicateNames(true), under whole-input and one-byte readers, against the reference model.
+
+func nameScopeDocs() []string {
+	var gen func(depth int) []string
+	memo := map[int][]string{}
+	gen = func(depth int) []string {
+		if v, ok := memo[depth]; ok {
+			return v
+		}
+		out := []string{`1`}
+		if depth > 0 {
+			sub := gen(depth - 1)
+			out = append(out, `{}`)
+			for _, x := range sub {
+				out = append(out, `{"a":`+x+`}`, `[`+x+`]`)
+				for _, y := range sub {
+					if len(x)+len(y) <= 24 {
+						out = append(out, `{"a":`+x+`,"b":`+y+`}`, `{"a":`+x+`,"a":`+y+`}`, `{"b":`+x+`,"a":`+y+`}`, `[`+x+`,`+y+`]`)
+					}
+				}
+			}
+		}
+		memo[depth] = out
+		return out
+	}
+	return gen(3)
+}
+
+func nameScopes(r *evid.Run) {
+	docs := nameScopeDocs()
+	if r.Tier != "thorough" && len(docs) > 6000 {
+		// deterministic thinning by stride in the quick tier (the full list runs in the thorough tier)
+		var t []string
+		for i, d := range docs {
+			if i%3 == 0 || len(d) <= 30 {
+				t = append(t, d)
+			}
+		}
+		docs = t
+	}
+	enum.Parallel(r, len(docs), func(w *enum.Worker) func(int) {
+		x := newRunner()
+		w.Describe = func() any { return x.cur }
+		var n int64
+		w.Done = func() { r.Evaluations.Add(n); r.Nontrivial.Add(n); r.Outcomes(x.stats) }
+		return func(u int) {
+			in := []byte(docs[u] + " " + docs[(u*7+1)%len(docs)])
+			ntok := countTokens(in) + 1
+			progs := []string{"", strings.Repeat("V", ntok), "T" + strings.Repeat("V", ntok), "TT" + strings.Repeat("V", ntok), "TTT" + strings.Repeat("S", ntok), strings.Repeat("TV", ntok), strings.Repeat("PT", ntok)}
+			for mode := 0; mode < 3; mode++ {
+				x.opts = nil
+				switch mode {
+				case 1:
+					x.opts = []jsontext.Options{jsontext.AllowDuplicateNames(true)}
+				case 2:
+					x.opts = []jsontext.Options{jsontext.AllowDuplicateNames(false), jsontext.AllowInvalidUTF8(false)}
+				}
+				for _, p := range progs {
+					base := x.baseline(in, p)
+					x.cur = Case{Input: in, Program: p, AllowDup: mode == 1, ExplicitFalse: mode == 2}
+					n++
+					if m := model(in, p, base, refjson.Opts{AllowDupNames: mode == 1}); m != "" {
+						report(r, x.cur, "whole-input decoding vs reference model: "+m)
+						continue
+					}
+					for _, sc := range []Sched{{}, {Chunk: 1}, {Chunk: 5, Empty: true}} {
+						x.cur.Sched = sc
+						n++
+						if m := x.chunked(in, p, sc, base); m != "" {
+							report(r, x.cur, m)
+						}
+					}
+				}
+				w.Beat()
+			}
+		}
+	})
+	r.Bound("name scopes: %d documents (every tree of objects / arrays of depth <=3 with <=2 members named from {a,b}, incl. duplicates, as two-value streams) x 7 call programs x {no options, explicit false, AllowDuplicateNames} x 3 reader shapes, against the reference model", len(docs))
 }
